@@ -177,7 +177,7 @@ func refStmtValid(st refStmt, b string) bool {
 
 func C14(r *ck.Run) {
 	requireMapOrderInstrumented()
-	r.Rule("(a) every glob pattern over {a,b,/,*,?} up to a length bound × every subject over {a,b,/} and (one shorter) over {a,/,*,?}; (b) every policy of 1-2 statements from a menu (effect × principal shape × action shape incl. '<full action name>*' × resource shape, string-or-array JSON forms, plain and with JSON escape sequences) × caller × action × resource, evaluated under EVERY iteration order of the policy's maps; (c) a menu of valid and invalid documents validated directly under every map order and put through HTTP; distinct = distinct (pattern,subject) / (policy,query) / document")
+	r.Rule("(a) every glob pattern over {a,b,/,*,?} up to a length bound × every subject over {a,b,/} and (one shorter) over {a,/,*,?}, plus patterns and subjects with multi-byte characters; (b) every policy of 1-2 statements from a menu (effect × principal shape × action shape incl. '<full action name>*' × resource shape, string-or-array JSON forms, plain and with JSON escape sequences) × caller × action × resource, evaluated under EVERY iteration order of the policy's maps; (c) a menu of valid and invalid documents (among them statements with Condition / Not* elements, which must be refused, and one statement per action the endpoint table names, which must be accepted) validated directly under every map order and put through HTTP; distinct = distinct (pattern,subject) / (policy,query) / document")
 	r.Assume("map iteration order of package auth is owned by the explorer through the overlay (range <map> → vmap.Keys)")
 	iam := c14IAM{map[string]bool{"u1": true, "u2": true, "u3": true}}
 	b := "bkt"
@@ -191,6 +191,11 @@ func C14(r *ck.Run) {
 	// subjects may contain the glob characters themselves (they are legal key characters)
 	subs := allStrings("ab/", sl)
 	subs = append(subs, allStrings("a/*?", sl-1)...)
+	// characters whose encoding takes more than one byte: '?' is one character
+	pats = append(pats, allStrings("a?*é", 3)...)
+	subs = append(subs, allStrings("aé€", 3)...)
+	subs = append(subs, "a/é", "é/a", "report-é")
+	pats = append(pats, "report-?", "a/?", "?/a")
 	r.Sharded(16, func() {
 		var rs auth.Resources
 		for pi, p := range pats {
@@ -407,6 +412,24 @@ func c14Docs(b string) []c14Doc {
 	add("missing-field", doc(`{"Effect":"Allow","Action":"s3:GetObject","Resource":`+q(arn(b+"/*"))+`}`), false)
 	add("missing-field", doc(`{"Effect":"Allow","Principal":"u1","Resource":`+q(arn(b+"/*"))+`}`), false)
 	add("missing-field", doc(`{"Effect":"Allow","Principal":"u1","Action":"s3:GetObject"}`), false)
+	// elements that narrow or invert a statement: a gateway that does not evaluate them must not accept them
+	for _, extra := range []string{`"Condition":{"IpAddress":{"aws:SourceIp":"203.0.113.0/24"}}`, `"Condition":{"Bool":{"aws:SecureTransport":"true"}}`, `"NotPrincipal":"u2"`, `"NotAction":"s3:DeleteObject"`, `"NotResource":` + q(arn(b+"/private/*"))} {
+		add("narrowing-element", doc(`{"Effect":"Allow","Principal":"*","Action":"s3:GetObject","Resource":`+q(arn(b+"/*"))+`,`+extra+`}`), false)
+	}
+	add("valid-null-condition", doc(`{"Effect":"Allow","Principal":"u1","Action":"s3:GetObject","Resource":`+q(arn(b+"/*"))+`,"Sid":"s1"}`), true)
+	// every action a request is decided on can be named in a policy, with the kind of resource it applies to
+	seenAct := map[string]bool{}
+	for _, ep := range Endpoints() {
+		if ep.Action == "" || seenAct[ep.Action] {
+			continue
+		}
+		seenAct[ep.Action] = true
+		res := arn(b)
+		if ep.ObjRes {
+			res = arn(b + "/*")
+		}
+		add("action-of-an-endpoint:"+ep.Action, doc(st(`"Allow"`, `"u1"`, q(ep.Action), q(res))), true)
+	}
 	return ds
 }
 
